@@ -398,7 +398,7 @@ def rand_ast(R, depth=3, alphabet=None):
         for _ in range(R.randint(1, 3)):
             k = R.random()
             if k < 0.5:
-                items.append(('ch', R.choice([c for c in alphabet if c not in '-]^[\\'] + [']', '-'])))
+                items.append(('ch', R.choice([c for c in alphabet if c not in '-]^[\\'] + [']', '-', '\\', '['])))      # (a backslash is an ordinary member of a bracket expression)
             elif k < 0.8:
                 items.append(R.choice([('range', 'a', 'c'), ('range', 'A', 'C'), ('range', '0', '9'), ('range', 'à', 'ÿ'), ('range', 'ا', 'ي'), ('range', 'a', 'z')]))
             else:
